@@ -5,7 +5,7 @@ import re
 import subprocess
 import time
 
-from common import (HarnessError, Report, cargo_build, ddmin, pmap, run, scratch, seed, sim_dir, target_dir, WORK)
+from common import (run_dir, HarnessError, Report, cargo_build, ddmin, pmap, run, scratch, seed, sim_dir, target_dir, WORK)
 
 
 def build_shim():
@@ -52,7 +52,7 @@ def parse_log(path):
 
 def sim_exec(bins, case_obj, tag, verbose=False):
     jp, sim, shim = bins
-    d = os.path.join(WORK, "run", "c18exec_%d" % os.getpid())
+    d = os.path.join(run_dir(), "c18exec")
     os.makedirs(d, exist_ok=True)
     path = os.path.join(d, "case_%s.json" % tag)
     with open(path, "w") as f:
